@@ -228,3 +228,11 @@ Theorem c03_new_get_sources_call_the_conversions :
   forallb (fun e => negb (String.eqb (dl_fn e) "new" || String.eqb (dl_fn e) "get") || deleg_ok e) src_delegations = true
   /\ covers src_delegations "src/quantity.rs" ["new"%string; "get"%string] = true.
 Proof. split; vm_compute; reflexivity. Qed.
+
+(* the float plumbing the model's StF transcribes: T = Self, conversion = *self, value = self, powi = Float::powi,
+   constants -0.0 (Add) and +0.0 (Sub); trait defaults coefficient = 1, constant = 0 (Gen/StorageSrc.v is regenerated from src/lib.rs) *)
+From UomV Require Import Gen.StorageSrc Spec.StorageTie.
+Theorem c03_float_plumbing_is_what_the_model_transcribes :
+  rows_eqb (class_rows "Float" src_storage ++ class_rows "default" src_storage)
+           (class_rows "Float" expected_storage ++ class_rows "default" expected_storage) = true.
+Proof. vm_compute. reflexivity. Qed.
